@@ -120,8 +120,25 @@ func (c *Ctx) namexRun() *nameVerdicts {
 	} else {
 		exprs := []string{"a", "a + b * a", "f ( a , B ) + b", "A + a", "x IS NULL AND y IN z", "'a' + b", "a [ b ]", "1 + 2", "f ( )", "g ( h ( x ) , y ) + X", "NOT q OR r XOR q",
 			"a LIKE 'b'", "true AND t", "n IS NOT NULL", "max ( a , min ( b , c ) ) * d", "a - - a", "b [ a ] + a [ b ]", "f ( f )", "null_1 + in_2", "a + /* b */ c", "abc + ABC + Abc"}
+		// quoted identifiers are identifiers whatever they spell: source text → reference lexemes
+		quotedIdent := map[string]string{
+			`"and" + b`:           "Word~and + b",
+			`"NOT" + total * 2`:   "Word~NOT + total * 2",
+			`"x-y" * "null"`:      "Word~x-y * Word~null",
+			`"a" + 'a' + a`:       "Word~a + 'a' + a",
+			`f ( "In" , "like" )`: "f ( Word~In , Word~like )",
+			`"is" IS NULL`:        "Word~is IS NULL",
+			`"true" OR "False"`:   "Word~true OR Word~False",
+		}
+		for src := range quotedIdent {
+			exprs = append(exprs, src)
+		}
+		sort.Strings(exprs)
 		for _, e := range exprs {
 			ls := lexemes(e)
+			if ref, ok := quotedIdent[e]; ok {
+				ls = lexemes(ref)
+			}
 			acc, rpn := gxReference(ls)
 			if !acc {
 				continue
@@ -151,7 +168,7 @@ func (c *Ctx) namexRun() *nameVerdicts {
 				continue
 			}
 			if _, isNil := r.(mNilT); !isNil {
-				note("discover-expression", "", fmt.Sprintf("ParseString(%q) fails with %s", e, errorCode(r)))
+				note("discover-expression", fmt.Sprintf("expression %q is well-formed (variables %q) but ParseString fails with %s: its variables are not discovered", e, want, errorCode(r)), "")
 				continue
 			}
 			vn, out := callM(c, m, pt, "VariableNames", parser)
@@ -280,6 +297,73 @@ func (c *Ctx) namexRun() *nameVerdicts {
 		}
 		note("auto-variables", bad, "")
 	}
+	// the switch: with automatic variables off nothing is created, whichever way the expression is set, and the
+	// missing variable is reported; with it on both ways create the entries
+	for _, auto := range []bool{true, false} {
+		for _, way := range []string{"SetExpression", "SetOriginalTokens"} {
+			m.steps = 0
+			calc, out := m.Call(cctor)
+			if out.kind != "ok" {
+				break
+			}
+			if _, out := callM(c, m, ct, "SetAutoVariables", calc, auto); out.kind != "ok" {
+				note("auto-variables", "", "SetAutoVariables: "+out.why)
+				continue
+			}
+			expr := "p + Q * p"
+			var r mv
+			if way == "SetExpression" {
+				r, out = callM(c, m, ct, "SetExpression", calc, expr)
+			} else {
+				// the token list of the same text, as another calculator's parser produced it
+				donor, o0 := m.Call(cctor)
+				_, o1 := callM(c, m, ct, "SetExpression", donor, expr)
+				toks, o2 := callM(c, m, ct, "OriginalTokens", donor)
+				if o0.kind != "ok" || o1.kind != "ok" || o2.kind != "ok" {
+					note("auto-variables", "", "OriginalTokens: "+o0.why+o1.why+o2.why)
+					continue
+				}
+				r, out = callM(c, m, ct, "SetOriginalTokens", calc, toks)
+			}
+			if out.kind != "ok" {
+				note("auto-variables", "", way+": "+out.why)
+				continue
+			}
+			if _, isNil := r.(mNilT); !isNil {
+				note("auto-variables", "", way+" fails with "+errorCode(r))
+				continue
+			}
+			dv, out := callM(c, m, ct, "DefaultVariables", calc)
+			dvi, ok := dv.(mIface)
+			if out.kind != "ok" || !ok {
+				note("auto-variables", "", "DefaultVariables: "+out.why)
+				continue
+			}
+			names, _, why := collectionEntries(c, m, dvi)
+			if why != "" {
+				note("auto-variables", "", why)
+				continue
+			}
+			bad := ""
+			switch {
+			case auto && fmt.Sprint(foldUnique(names)) != "[p q]":
+				bad = fmt.Sprintf("automatic variables on, %s(%q): the default collection holds %q; one entry per name is [p Q]", way, expr, names)
+			case !auto && len(names) != 0:
+				bad = fmt.Sprintf("automatic variables off, %s(%q): the default collection holds %q; nothing may be created", way, expr, names)
+			}
+			if !auto && bad == "" {
+				ev, out := callM(c, m, ct, "Evaluate", calc)
+				if tp, ok := ev.(mTuple); ok && out.kind == "ok" {
+					if errorCode(tp[1]) != "VAR_NOT_FOUND" {
+						bad = fmt.Sprintf("automatic variables off, %s(%q): evaluating gives %s %s; the missing variable must be reported (VAR_NOT_FOUND)", way, expr, mRender(tp[0]), errorCode(tp[1]))
+					}
+				} else if out.kind == "panic" {
+					bad = fmt.Sprintf("automatic variables off, %s(%q): evaluating panics: %s", way, expr, out.why)
+				}
+			}
+			note("auto-variables", bad, "")
+		}
+	}
 	// unset variables of separate calculators are separate nulls: giving one a value in place leaves the other null
 	{
 		c1, o1 := m.Call(cctor)
@@ -330,6 +414,7 @@ func (c *Ctx) namexRun() *nameVerdicts {
 		{map[string]string{}, "{{a}} {{#B}}{{A}}{{/B}}", []string{"a", "b"}},
 		{map[string]string{"A": "1"}, "{{a}}{{#if c}}x{{/if}}", []string{"a", "c"}},
 		{map[string]string{"z": "9"}, "text", []string{"z"}},
+		{map[string]string{"\u023a": "1", "\u00c9t\u00e9": "2"}, "{{\u2c65}}{{#\u00e9T\u00c9}}x{{/\u00e9T\u00c9}}", []string{"\u2c65", "\u00e9t\u00e9"}},
 	} {
 		m.steps = 0
 		tm, out := m.Call(tctor)
@@ -523,6 +608,8 @@ func (c *Ctx) namexRun() *nameVerdicts {
 			}{
 				{[]string{"x", "X"}, "X", "value of x#1"},
 				{[]string{"Abc", "abc", "ABC"}, "aBC", "value of Abc#1"},
+				{[]string{"\u023a", "\u2c65"}, "\"\u2c65\"", "value of \u023a#1"},
+				{[]string{"\u00c9t\u00e9", "\u00e9t\u00e9"}, "\u00e9T\u00c9", "value of first"},
 				{nil, "a + 1", "error VAR_NOT_FOUND naming a"},
 				{[]string{"b"}, "g ( b )", "error FUNC_NOT_FOUND naming g"},
 			} {
